@@ -1439,6 +1439,177 @@ def gen_memo(repo):
 
 GENERATORS["MemoGen"] = gen_memo
 
+# ---------------------------------------------------------------------------------------------------------------------------
+# hrevolve.py: RevolveCheckpointSchedule._iterator (the converter of the four Revolve-family classes) -> coq/Model/GenLang4.v
+ZL4 = {"i": "Li", "n_0": "Ln_0", "n_1": "Ln_1", "w_n0": "Lw_n0", "d_n0": "Ld_n0"}
+BL4 = {"write_ics": "Lwrite_ics", "adj_deps": "Ladj_deps"}
+SL4 = {"storage": "Lstorage", "w_storage": "Lw_storage"}
+KL4 = {"cp_action": "Lcp_action", "w_cp_action": "Lw_cp_action", "d_cp_action": "Ld_cp_action"}
+EXN4 = ("RuntimeError", "InvalidForwardStep", "InvalidReverseStep", "InvalidActionIndex", "InvalidRevolverAction")
+
+
+class GenTr4:
+    def z(self, e):
+        if isinstance(e, ast.Constant) and isinstance(e.value, int) and not isinstance(e.value, bool):
+            return "(ZC %d)" % e.value if e.value >= 0 else "(ZC (%d))" % e.value
+        a = _self_attr(e)
+        if a in ("_n", "_r", "_max_n"):
+            return {"_n": "ZN", "_r": "ZR", "_max_n": "ZMax"}[a]
+        if isinstance(e, ast.Name) and e.id in ZL4:
+            return "(ZL %s)" % ZL4[e.id]
+        if isinstance(e, ast.BinOp) and isinstance(e.op, (ast.Add, ast.Sub)):
+            return "(%s %s %s)" % ("ZAdd" if isinstance(e.op, ast.Add) else "ZSub", self.z(e.left), self.z(e.right))
+        if isinstance(e, ast.Call) and isinstance(e.func, ast.Name) and e.func.id == "len" and len(e.args) == 1 and not e.keywords:
+            if _self_attr(e.args[0]) == "_schedule":
+                return "ZLenOps"
+            if isinstance(e.args[0], ast.Name) and e.args[0].id == "snapshots":
+                return "ZLenSet"
+        raise Untranslatable("integer expression " + ast.dump(e)[:90])
+
+    def b(self, e):
+        if isinstance(e, ast.BoolOp) and isinstance(e.op, ast.Or):
+            out = self.b(e.values[-1])
+            for v in reversed(e.values[:-1]):
+                out = "(BOr %s %s)" % (self.b(v), out)
+            return out
+        if isinstance(e, ast.Compare) and len(e.ops) == 1:
+            op, l, r = e.ops[0], e.left, e.comparators[0]
+            if _self_attr(l) == "_max_n" and isinstance(r, ast.Constant) and r.value is None and isinstance(op, ast.Is):
+                return "BMaxIsNone"
+            if isinstance(l, ast.Name) and l.id in KL4 and isinstance(r, ast.Constant) and r.value in OKINDS and isinstance(op, (ast.Eq, ast.NotEq)):
+                return "(%s %s K%s)" % ("BKindIs" if isinstance(op, ast.Eq) else "BKindIsNot", KL4[l.id], r.value)
+            if isinstance(l, ast.Name) and l.id in SL4 and isinstance(r, ast.Name) and r.id in SL4 and isinstance(op, ast.NotEq):
+                return "(BStNe %s %s)" % (SL4[l.id], SL4[r.id])
+            for k, nm in ((ast.Eq, "BEq"), (ast.NotEq, "BNe"), (ast.Lt, "BLt"), (ast.Gt, "BGt")):
+                if isinstance(op, k):
+                    return "(%s %s %s)" % (nm, self.z(l), self.z(r))
+        raise Untranslatable("condition " + ast.dump(e)[:90])
+
+    def bv(self, e):
+        if isinstance(e, ast.Constant) and isinstance(e.value, bool):
+            return "(BC %s)" % ("true" if e.value else "false")
+        if isinstance(e, ast.Name) and e.id in BL4:
+            return "(BL %s)" % BL4[e.id]
+        raise Untranslatable("boolean argument " + ast.dump(e)[:60])
+
+    def sv(self, e):
+        if _is_st_const(e):
+            return "(SC %s)" % e.attr
+        if isinstance(e, ast.Name) and e.id in SL4:
+            return "(SL %s)" % SL4[e.id]
+        raise Untranslatable("storage argument " + ast.dump(e)[:60])
+
+    def action(self, c):
+        if not (isinstance(c, ast.Call) and isinstance(c.func, ast.Name)):
+            raise Untranslatable("yielded value")
+        f, a, kw = c.func.id, c.args, c.keywords
+        if f == "Forward" and len(a) == 5 and not kw:
+            return "(AForward %s %s %s %s %s)" % (self.z(a[0]), self.z(a[1]), self.bv(a[2]), self.bv(a[3]), self.sv(a[4]))
+        if f == "Reverse" and len(a) == 2 and len(kw) == 1 and kw[0].arg == "clear_adj_deps" and isinstance(kw[0].value, ast.Constant) and isinstance(kw[0].value.value, bool):
+            return "(AReverse %s %s %s)" % (self.z(a[0]), self.z(a[1]), "true" if kw[0].value.value else "false")
+        if f in ("Copy", "Move") and len(a) == 3 and not kw:
+            return "(A%s %s %s %s)" % (f, self.z(a[0]), self.sv(a[1]), self.sv(a[2]))
+        if f in ("EndForward", "EndReverse") and not a and not kw:
+            return "A" + f
+        raise Untranslatable("action " + f)
+
+    def stmts(self, body):
+        body = _strip_doc(body)
+        if not body:
+            return "SSkip"
+        parts = [self.stmt(x) for x in body]
+        out = parts[-1]
+        for x in reversed(parts[:-1]):
+            out = "(SSeq %s %s)" % (x, out)
+        return out
+
+    def conv(self, t, v):
+        """k, (a, b, c) = _convert_action(self._schedule[E])"""
+        if not (isinstance(t, ast.Tuple) and len(t.elts) == 2 and isinstance(t.elts[0], ast.Name) and t.elts[0].id in KL4 and isinstance(t.elts[1], ast.Tuple) and len(t.elts[1].elts) == 3
+                and all(isinstance(x, ast.Name) for x in t.elts[1].elts)):
+            return None
+        if not (isinstance(v, ast.Call) and isinstance(v.func, ast.Name) and v.func.id == "_convert_action" and len(v.args) == 1 and not v.keywords
+                and isinstance(v.args[0], ast.Subscript) and _self_attr(v.args[0].value) == "_schedule"):
+            return None
+        a, b, c = (x.id for x in t.elts[1].elts)
+        if a not in ZL4 or c not in SL4 or (b != "_" and b not in ZL4):
+            raise Untranslatable("targets of _convert_action")
+        return "(SConv %s %s %s %s %s)" % (KL4[t.elts[0].id], ZL4[a], "None" if b == "_" else "(Some %s)" % ZL4[b], SL4[c], self.z(v.args[0].slice))
+
+    def stmt(self, s):
+        if isinstance(s, ast.If):
+            return "(SIf %s %s %s)" % (self.b(s.test), self.stmts(s.body), self.stmts(s.orelse))
+        if isinstance(s, ast.While) and not s.orelse:
+            return "(SWhile %s %s)" % (self.b(s.test), self.stmts(s.body))
+        if isinstance(s, ast.Raise) and s.cause is None:
+            nm = s.exc.func.id if isinstance(s.exc, ast.Call) and isinstance(s.exc.func, ast.Name) else getattr(s.exc, "id", None)
+            if nm in EXN4:
+                return "(SRaise %s)" % nm
+        if isinstance(s, ast.Expr) and isinstance(s.value, ast.Yield) and s.value.value is not None:
+            return "(SYield %s)" % self.action(s.value.value)
+        if isinstance(s, ast.Expr) and isinstance(s.value, ast.Call) and isinstance(s.value.func, ast.Attribute) and isinstance(s.value.func.value, ast.Name) \
+                and s.value.func.value.id == "snapshots" and len(s.value.args) == 1 and not s.value.keywords and s.value.func.attr in ("add", "remove"):
+            return "(SSet%s %s)" % ("Add" if s.value.func.attr == "add" else "Remove", self.z(s.value.args[0]))
+        if isinstance(s, ast.AugAssign) and isinstance(s.op, ast.Add):
+            if _self_attr(s.target) == "_r":
+                return "(SSetR (ZAdd ZR %s))" % self.z(s.value)
+            if isinstance(s.target, ast.Name) and s.target.id in ZL4:
+                return "(SSetZ %s (ZAdd (ZL %s) %s))" % (ZL4[s.target.id], ZL4[s.target.id], self.z(s.value))
+        if isinstance(s, ast.Assign) and len(s.targets) == 1:
+            t, v = s.targets[0], s.value
+            c = self.conv(t, v)
+            if c:
+                return c
+            if isinstance(t, ast.Name):
+                if t.id == "snapshots" and ast.unparse(v) == "set()":
+                    return "SSetNew"
+                if t.id in BL4 and isinstance(v, ast.Constant) and isinstance(v.value, bool):
+                    return "(SSetB %s %s)" % (BL4[t.id], "true" if v.value else "false")
+                if t.id in SL4 and isinstance(v, ast.Constant) and v.value is None:
+                    return "(SSetS %s None)" % SL4[t.id]
+                if t.id in SL4 and _is_st_const(v):
+                    return "(SSetS %s (Some %s))" % (SL4[t.id], v.attr)
+                if t.id in ZL4:
+                    return "(SSetZ %s %s)" % (ZL4[t.id], self.z(v))
+            a = _self_attr(t)
+            if a == "_n":
+                return "(SSetN %s)" % self.z(v)
+            if a == "_exhausted" and isinstance(v, ast.Constant) and isinstance(v.value, bool):
+                return "(SSetX %s)" % ("true" if v.value else "false")
+        raise Untranslatable("statement " + ast.dump(s)[:100])
+
+
+def gen_converter(repo):
+    _check_protocol(repo)
+    tree = ast.parse(open(os.path.join(repo, "checkpoint_schedules", "hrevolve.py")).read())
+    classes = {c.name: c for c in ast.walk(tree) if isinstance(c, ast.ClassDef)}
+    c = classes.get("RevolveCheckpointSchedule")
+    if c is None:
+        raise Untranslatable("class RevolveCheckpointSchedule")
+    ms = _methods(c)
+    f = ms.get("_iterator")
+    if f is None or [a.arg for a in f.args.args] != ["self"] or f.decorator_list:
+        raise Untranslatable("RevolveCheckpointSchedule._iterator(self)")
+    ex = ms.get("is_exhausted")
+    exb = _strip_doc(ex.body) if ex is not None else []
+    if len(exb) != 1 or not isinstance(exb[0], ast.Return) or ast.unparse(exb[0].value) != "self._exhausted":
+        raise Untranslatable("RevolveCheckpointSchedule.is_exhausted is not `return self._exhausted`")
+    fi, asg, sup = _init_assigns(c)
+    if sup is None or ast.unparse(sup) != "super().__init__(max_n)" or ast.unparse(asg.get("_exhausted", ast.Constant(value=None))) != "False" \
+            or ast.unparse(asg.get("_schedule", ast.Constant(value=None))) != "schedule":
+        raise Untranslatable("RevolveCheckpointSchedule.__init__: super().__init__(max_n); self._exhausted = False; self._schedule = schedule")
+    for sub in ("Revolve", "DiskRevolve", "PeriodicDiskRevolve", "HRevolve"):
+        sc = classes.get(sub)
+        if sc is None or any(m in _methods(sc) for m in ("_iterator", "__next__", "__iter__", "finalize", "is_exhausted", "n", "r", "max_n")):
+            raise Untranslatable("%s overrides part of the iteration" % sub)
+    return "\n".join(["(* GENERATED by harness/translate.py from checkpoint_schedules/hrevolve.py (RevolveCheckpointSchedule._iterator) -- do not edit *)",
+                      "From Coq Require Import ZArith List Bool.", "From CS Require Import Actions Ops RevConv ConvKinds GenLang4 GenConv.", "Import ListNotations.", "Open Scope Z_scope.", "",
+                      "Definition conv_prog : stmt :=", "  %s." % GenTr4().stmts(f.body),
+                      "Lemma conv_prog_is_model : conv_prog = GenConv.conv_prog_model.", "Proof. reflexivity. Qed.", ""]) + "\n"
+
+
+GENERATORS["ConverterGen"] = gen_converter
+
 
 if __name__ == "__main__":
     repo = os.environ.get("VERIF_REPO", "/repo")
